@@ -329,6 +329,8 @@ func execOp(s *Sexp) string {
 		return execJRT(s)
 	case "jdeep":
 		return execJDeep(s)
+	case "tdeep":
+		return execTDeep(s)
 	case "latereg":
 		// (latereg KIND): a use that fails because a type has no codec leaves nothing behind: once the
 		// codec is registered on that same instance the same call works, and gives what an instance
@@ -805,7 +807,7 @@ func execOp(s *Sexp) string {
 		})
 	case "encm":
 		return "ok"
-	case "dec":
+	case "dec", "decdeep": // decdeep: the same on inputs nested deeper than the (cut) recursive type the model sees: oracle only
 		lastDecValid = false
 		c, err := parseCtx(s)
 		if err != nil {
